@@ -188,13 +188,7 @@ func SplitDep(t *rapid.T, f *ir.File, types []string) {
 	}
 	// The two files may spell the same Go package differently in their go_package options ("path" and "path;name").
 	if len(moved) > 0 && rapid.IntRange(0, 2).Draw(t, "depgopkg") == 0 {
-		if i := strings.Index(f.GoPackage, ";"); i < 0 {
-			if last := f.GoPackage[strings.LastIndex(f.GoPackage, "/")+1:]; last != "" && !strings.ContainsAny(last, ".-") && f.GoPackage != "" {
-				f.DepGoPackage = f.GoPackage + ";" + last
-			}
-		} else if last := f.GoPackage[:i][strings.LastIndex(f.GoPackage[:i], "/")+1:]; last == f.GoPackage[i+1:] {
-			f.DepGoPackage = f.GoPackage[:i]
-		}
+		f.DepAltSpelling = true
 	}
 	for i, e := range f.Enums {
 		// enums the moved messages use must move; others may
